@@ -71,7 +71,7 @@ SECT_OF = {'pair': 'Pair', 'eam_embed': 'EAM-Embed', 'eam_density': 'EAM-Density
 def correspond(ctx):
     rng = ctx['rng']
     cases = [gen_case(rng) for _ in range(300 if ctx['thorough'] else 90)]
-    pcases = [gen_potable(rng) for _ in range(60 if ctx['thorough'] else 14)]
+    pcases = potable_corpus() + [gen_potable(rng) for _ in range(60 if ctx['thorough'] else 14)]
     exprs, tabs, dis = [], [], []
     for c in cases:
         T = sc.Tables()
@@ -128,6 +128,15 @@ def hand_delete(model, mode, S):
         else: es[:] = [e for e in es if not any(x in S for x in species(e['key']))]
     return m
 
+def potable_corpus():
+    """fixed command-line cases (whatever the random stream does): the empty include / exclude set, an unknown label, the full set"""
+    out = []
+    for k, (mode, pick) in enumerate([('include', 'none'), ('exclude', 'none'), ('include', 'unknown'), ('include', 'all'), ('exclude', 'all')]):
+        g = random.Random(1300 + k); m = sc.gen_model(g, kind=['pair', 'eam', 'fs'][k % 3])
+        S = {'none': [], 'unknown': ['Qq'], 'all': list(m['els'])}[pick]
+        out.append({'potable_filter': True, 'model': m, 'mode': mode, 'S': S, 'route': 'cli'})
+    return out
+
 def gen_potable(rng):
     m = sc.gen_model(rng, kind=rng.choice(['pair', 'eam', 'fs']))
     return {'potable_filter': True, 'model': m, 'mode': rng.choice(['include', 'exclude']), 'S': gen_species_set(rng, m['els']), 'route': rng.choice(['cli', 'api', 'api'])}
@@ -163,6 +172,7 @@ def oracle(case):
     return []
 
 def search_cases(rng, n):
+    for c in potable_corpus(): yield c
     for k in range(n // 4):
         yield gen_case(rng)
         if k % 4 == 0: yield gen_potable(rng)
